@@ -18,6 +18,9 @@ FENS = [
     "r4rk1/1pp1qppp/p1np1n2/2b1p1B1/2B1P1b1/P1NP1N2/1PP1QPPP/R4RK1 w - - 0 10",
     "8/8/8/4k3/8/8/3Q4/K6r w - - 0 1",
     "4k3/8/8/8/8/8/4P3/4K3 w - - 0 1",
+    "7k/6Q1/6K1/8/8/8/8/8 b - - 0 1",        # checkmated root: no job is ever handed to a helper
+    "7k/5Q2/6K1/8/8/8/8/8 b - - 0 1",        # stalemated root
+    "7k/8/6K1/8/8/8/8/Q7 w - - 0 1",         # mate in one: the search runs out of depth at once, helpers end idle
 ]
 EV = dict(WORKER_INIT_SEARCH=1, WORKER_JOB_RECEIVED=2, WORKER_SEARCH_BEGIN=3, WORKER_SEARCH_END=4, WORKER_REPORT_RESULT=5, MAIN_INIT_SEARCH=6,
           ROOT_JOB_START=7, HELPER_RESULT_ACCEPTED=8, ENGINE_SEARCH_BEGIN=9, ENGINE_SEARCH_END=10, FINISH_SEARCH=11)
@@ -25,7 +28,7 @@ EV = dict(WORKER_INIT_SEARCH=1, WORKER_JOB_RECEIVED=2, WORKER_SEARCH_BEGIN=3, WO
 
 def gen_script(rnd):
     """Returns (lines, description). Every search uses a different position so that stale work is recognisable."""
-    threads = rnd.choice([1, 2, 2, 3, 4, 4, 6, 8])
+    threads = rnd.choice([1, 2, 2, 3, 4, 4, 5, 6, 6, 7, 8])
     lines = ["now 0 | uci", "now 0 | setoption name Threads value %d" % threads, "now 0 | isready"]
     fens = rnd.sample(FENS, len(FENS))
     nsearch = rnd.randint(2, 4)
@@ -55,7 +58,7 @@ def gen_script(rnd):
             lines.append("now 0 | go depth %d" % d); nbest += 2
         elif kind == "optthreads":
             lines.append("now 0 | go depth %d" % d); nbest += 1
-            lines.append("best %d | setoption name Threads value %d" % (nbest, rnd.choice([1, 2, 3, 4, 8])))
+            lines.append("best %d | setoption name Threads value %d" % (nbest, rnd.choice([1, 2, 3, 4, 5, 6, 7, 8])))     # 5 <-> 6: the helper tree is reshaped
         elif kind == "optduring":
             lines.append("now 0 | go infinite")
             lines.append("%s | setoption name %s" % (rel(), rnd.choice(["Threads value 2", "Threads value 5", "Hash value 1", "MultiPV value 2", "Clear Hash", "UseNullMove value false"])))
@@ -192,7 +195,7 @@ def one(args):
 
 def run(c):
     quick = c.tier == "quick"
-    n = int((320 if quick else 30000) * c.scale)
+    n = int((320 if quick else 8000) * c.scale)
     B.build([("rel", "h_cos")])
     core.ensure_nets([NET])
     hashes = set()
